@@ -189,6 +189,11 @@ pub trait Part: Send + Sync {
     fn run(&self, prop: &str, seed: u64, tier: Tier, known: &[KnownFinding]) -> PartReport;
     /// Re-execute one stored case (plain regression check, no proptest).
     fn replay(&self, case: &Value) -> Result<CaseResult, String>;
+    /// Decode fuzzer bytes into a case (the bytes are the random stream of the part's strategy) and
+    /// decide it; Some((case, message)) = violation outside the known findings.
+    fn fuzz(&self, _data: &[u8], _known: &[KnownFinding]) -> Option<(Value, String)> {
+        None
+    }
 }
 
 /// A generated-case part: strategy + pure run function.
@@ -446,6 +451,24 @@ where
     fn replay(&self, case: &Value) -> Result<CaseResult, String> {
         let c: C = serde_json::from_value(case.clone()).map_err(|e| format!("cannot decode case: {e}"))?;
         Ok(run_guarded(self.run, &c))
+    }
+
+    fn fuzz(&self, data: &[u8], known: &[KnownFinding]) -> Option<(Value, String)> {
+        use proptest::strategy::{Strategy, ValueTree};
+        use proptest::test_runner::{RngAlgorithm, TestRng};
+        let rng = TestRng::from_seed(RngAlgorithm::PassThrough, data);
+        let mut runner = TestRunner::new_with_rng(Config { failure_persistence: None, ..Config::default() }, rng);
+        let strategy = (self.strategy)(Tier::Quick);
+        let c = strategy.new_tree(&mut runner).ok()?.current();
+        match run_guarded(self.run, &c) {
+            Ok(_) => None,
+            Err(f) => {
+                if is_known(self.signature, &c, &f, known).is_some() {
+                    return None;
+                }
+                Some((serde_json::to_value(&c).unwrap_or(Value::Null), format!("[{}] {}", f.kind, f.msg)))
+            }
+        }
     }
 }
 
